@@ -240,6 +240,8 @@ class Unit:
         self.records = {}     # qname -> [decl]  (pattern + specialisations)
         self.enums = {}
         self.vars = {}
+        if path is None:
+            return
         ended = False
         with open(path) as f:
             for line in f:
@@ -324,6 +326,33 @@ class Program:
     @property
     def umbrella(self):
         return self.unit("umbrella")
+
+    def library(self):
+        """Umbrella + every library unit merged (each declaration once)."""
+        if "<library>" in self._units:
+            return self._units["<library>"]
+        lib = Unit("<library>", None)
+        seen = set()
+        for name in self.all_unit_names():
+            u = self.unit(name)
+            for d in u.decls:
+                key = (d["kind"], d.get("full", d.get("qname")), d.get("file"), d.get("line"),
+                       d.get("targs"), d.get("cls"))
+                if key in seen:
+                    continue
+                seen.add(key)
+                lib.decls.append(d)
+                k = d["kind"]
+                if k == "function":
+                    lib.functions.setdefault(d["qname"], []).append(d)
+                elif k == "record":
+                    lib.records.setdefault(d["qname"], []).append(d)
+                elif k == "enum":
+                    lib.enums[d["qname"]] = d
+                elif k == "var":
+                    lib.vars[d["qname"]] = d
+        self._units["<library>"] = lib
+        return lib
 
     def all_unit_names(self):
         return ["umbrella"] + library_units()
